@@ -76,16 +76,32 @@ def chunk_grid(size, chunk_size):
     return out
 
 
+class ScaleCodecMismatch(Exception):
+    """A stored chunk does not decode, with the codec its OWN scale declares,
+    to what PrecomputedIO.read_chunk returned."""
+
+
 def read_scale(pio, scale_info, num_channels, dtype):
     """Reassemble a whole scale as a (C,Z,Y,X) array through read_chunk.
-    Returns (array, n_chunks_read, decoded_bytes)."""
+    Every chunk's stored bytes are also decoded with an encoder built from this
+    scale's own info (independently of PrecomputedIO's bookkeeping) and must
+    give the same array.  Returns (array, n_chunks_read, decoded_bytes)."""
+    from neuroglancer_scripts import chunk_encoding
     size = scale_info["size"]
     cs = scale_info["chunk_sizes"][0]
     vol = np.zeros((num_channels, size[2], size[1], size[0]), dtype=dtype)
     n = 0
     nbytes = 0
+    own = chunk_encoding.get_encoder(pio.info, scale_info)
     for cc in chunk_grid(size, cs):
         chunk = pio.read_chunk(scale_info["key"], cc)
+        if not own.lossy:
+            raw = pio.accessor.fetch_chunk(scale_info["key"], cc)
+            again = own.decode(raw, (cc[1] - cc[0], cc[3] - cc[2], cc[5] - cc[4]))
+            if again.shape != chunk.shape or again.tobytes() != np.ascontiguousarray(chunk).tobytes():
+                raise ScaleCodecMismatch(f"scale {scale_info['key']} chunk {cc}: stored bytes do not decode "
+                                         f"with the scale's own {scale_info['encoding']} codec to the array "
+                                         "read_chunk returned")
         x0, x1, y0, y1, z0, z1 = cc
         vol[:, z0:z1, y0:y1, x0:x1] = chunk
         n += 1
